@@ -93,7 +93,7 @@ class Accessory:
         return self.be.hkdf(self.shared, salt, info, length)
 
 
-PK = ["honest", "adversary", "foreign", "arbitrary32", "short31", "absent"]
+PK = ["honest", "adversary", "foreign", "arbitrary32", "short31", "absent", "honest+one-more-byte", "honest-twice"]
 CT = ["honest", "absent", "arbitrary", "truncated", "other-exchange", "adversary-encrypted", "paired-key-other-identifier"]
 BOUND_IDS = ["prefix", "suffix", "empty", "other", "longer", "lower-case"]
 IDS = ["stored", "other", "arbitrary"]
@@ -125,6 +125,10 @@ def verify_full(M):
             pk = be.arbitrary("pk", 32, avoid=be.known_values(("xpub",)))
         elif pk_sel == "short31":
             pk = be.arbitrary("pk31", 31)
+        elif pk_sel == "honest+one-more-byte":
+            pk = rope(pub, be.arbitrary("pkextra", 1)) if be.sym else bytes(pub) + bytes(be.arbitrary("pkextra", 1))  # appended in transit
+        elif pk_sel == "honest-twice":
+            pk = rope(pub, pub) if be.sym else bytes(pub) * 2  # e.g. a second adjacent PublicKey item that the decoder joins
         else:
             pk = None
         # ---- encrypted data field
@@ -302,7 +306,7 @@ def two_records(M):
     return h
 
 
-TAGS = ["honest", "wrong-secret", "other-pubkey", "other-session-id", "arbitrary", "absent"]
+TAGS = ["honest", "wrong-secret", "other-pubkey", "other-session-id", "arbitrary", "absent", "truncated-to-15", "first-byte-only", "empty"]
 METHODS = ["resume", "absent", "other"]
 
 
@@ -343,6 +347,9 @@ def verify_resume(M):
             tag = tag_for(prev.shared, ios_pub, old_sid)
         elif tsel == "arbitrary":
             tag = be.arbitrary("tag", 16, avoid=be.known_values(("aead",)))
+        elif tsel in ("truncated-to-15", "first-byte-only", "empty"):
+            k = {"truncated-to-15": 15, "first-byte-only": 1, "empty": 0}[tsel]
+            tag = as_rope(honest_tag).slice(0, k) if be.sym else bytes(honest_tag)[:k]  # a prefix of the right tag is not the tag
         else:
             tag = None
         fields = [(T_STATE, b"\x02")]
